@@ -129,7 +129,8 @@ class SessionModel:
             return Expect([])
         s = line.rstrip()
         cmd, _, arg = s.partition(" ")
-        verb = cmd.lower()
+        # (only the 26 ascii letters have a second spelling: a verb with the kelvin sign in it is another verb)
+        verb = cmd.lower() if cmd.isascii() else cmd
         known = verb in ("abor", "appe", "cdup", "cwd", "dele", "epsv", "list", "mkd", "mlsd", "mlst", "pass",
                          "pasv", "pbsz", "prot", "pwd", "quit", "rest", "retr", "rmd", "rnfr", "rnto", "stor",
                          "syst", "type", "user")
